@@ -30,6 +30,9 @@ generator objects); a creation advances that generator by exactly the number of 
 Family `dry` (D only, see _dry_case): finite user-supplied generators and more defaulted creations than ids: an exception
 out of new() is accepted, an instance with a null / foreign / repeated defaulted id is not.
 
+Family `layout` (D only, see _layout_case): the attribute list of a class is edited between creations; positional arguments
+are paired with the attributes in their current order, keywords address the current attribute of that name.
+
 Family `twin` (D only, see _twin_case): two metamodels with the same classes in one process, with separate generators or
 sharing one generator object, swapping and sharing generators along the way.  D: a defaulted id comes from the current
 generator of the metamodel the instance is created in, is non-null and new; only that generator advances, by the
@@ -55,6 +58,9 @@ RULE = ('(1) exhaustive: every interleaving of peek / next of length <= 9 (quick
         'explicit-id-collision); '
         '(6) generators that run dry (D only): a plain finite iterator or an IdGenerator whose readfunc raises StopIteration after '
         '0-5 values, more creations with the id omitted than values (no instance with a null id may be handed out); '
+        '(7) edited attribute lists (D only): delete_attribute / insert_attribute / append_attribute between creations, incl. moves '
+        'and replacements that keep the number of attributes, then positional and keyword creations (arguments follow the CURRENT '
+        'order); '
         '(4) two metamodels in one process (D only) with the same classes, separate generators or one shared generator '
         'object, 4-14 ops of new (through metamodel / metaclass / call) / fresh generator / take over the other one\'s generator / '
         'load short rows, in either metamodel; '
@@ -318,6 +324,67 @@ def _dry_case(r):
             'values': k, 'attrs': attrs, 'ops': ops}
 
 
+def _layout_case(r):
+    """D-only family `layout`: the attribute list of a class is EDITED between creations - MetaClass.delete_attribute,
+    insert_attribute, append_attribute, including moves that keep the number of attributes (delete + insert of the same
+    name at another position) - and creations with positional and keyword arguments follow.  D: positional arguments are
+    paired with the attributes in their CURRENT order, keywords (any letter case) address the current attribute of that name,
+    every other attribute holds the typed default of its current type."""
+    types = ['INTEGER', 'STRING', 'REAL', 'BOOLEAN']
+    pool = ['Id', 'Name', 'Weight', 'Flag', 'Cnt', 'Tag']
+    attrs = [[a, respell(r, r.choice(types))] for a in r.sample(pool, r.randint(2, 4))]
+    cur = [list(a) for a in attrs]
+    ops = []
+    serial = [0]
+
+    def creation():
+        npos = r.choice([0, 1, len(cur), r.randint(0, len(cur))])
+        args = []
+        for i in range(npos):
+            serial[0] += 1
+            args.append(1000 + serial[0])                      # distinct values: which attribute got which argument shows
+        kws = []
+        for a, _ in cur[npos:]:
+            if r.random() < 0.3:
+                serial[0] += 1
+                kws.append([respell(r, a), 5000 + serial[0]])
+        ops.append(['new', args, kws, r.choice(['m', 'mc', 'call'])])
+    creation()                                                 # whatever the class remembers about its layout is warm now
+    for _ in range(r.randint(2, 8)):
+        w = r.random()
+        unused = [a for a in pool if a not in [c[0] for c in cur]]
+        if w < 0.35 and len(cur) >= 2:
+            # a move: the same attribute at another position, the number of attributes unchanged
+            j = r.randrange(len(cur))
+            a, t = cur[j]
+            k = r.choice([i for i in range(len(cur)) if i != j])
+            ops.append(['delattr', a])
+            ops.append(['insattr', k, a, t])
+            del cur[j]
+            cur.insert(k, [a, t])
+        elif w < 0.5 and len(cur) >= 2:
+            # a replacement: one attribute goes, another one comes (same number of attributes)
+            j = r.randrange(len(cur))
+            ops.append(['delattr', cur[j][0]])
+            del cur[j]
+            if unused:
+                a, t, k = r.choice(unused), respell(r, r.choice(types)), r.randint(0, len(cur))
+                ops.append(['insattr', k, a, t])
+                cur.insert(k, [a, t])
+        elif w < 0.6 and unused:
+            a, t = r.choice(unused), respell(r, r.choice(types))
+            ops.append(['appattr', a, t])
+            cur.append([a, t])
+        elif w < 0.68 and unused:
+            a, t, k = r.choice(unused), respell(r, r.choice(types)), r.randint(0, len(cur))
+            ops.append(['insattr', k, a, t])
+            cur.insert(k, [a, t])
+        else:
+            creation()
+    creation()
+    return {'gen': 'user', 'start': 1, 'step': 1, 'fam': 'layout', 'attrs': attrs, 'ops': ops}
+
+
 def _twin_case(r):
     """D-only family: TWO metamodels in one process that define the same classes (same kinds, same attribute names).  They
     start with separate generators or SHARE one generator object; during the history either one gets a fresh generator
@@ -372,6 +439,9 @@ def generate(ctx):
     dr = ctx.rng.fork('dry')
     for i in range(ctx.pick(800, 8000)):
         yield _dry_case(dr.fork(i))
+    lr = ctx.rng.fork('layout')
+    for i in range(ctx.pick(1200, 12000)):
+        yield _layout_case(lr.fork(i))
     tr = ctx.rng.fork('twin')
     for i in range(ctx.pick(1200, 15000)):
         yield _twin_case(tr.fork(i))
@@ -621,6 +691,65 @@ def _run_dry(case):
             'model_line': None}
 
 
+def _run_layout(case):
+    x = _x
+    m = x.MetaModel(x.IntegerGenerator())
+    mc = m.define_class('L', [tuple(a) for a in case['attrs']])
+    cur = [tuple(a) for a in case['attrs']]
+    fails = []
+    stats = {'cases_layout': 1}
+    edits_before_creation = 0
+    checked_after_edit = 0
+    for n, op in enumerate(case['ops']):
+        nm = op[0]
+        stats['op_' + nm] = stats.get('op_' + nm, 0) + 1
+        if nm == 'delattr':
+            mc.delete_attribute(op[1])
+            cur = [a for a in cur if a[0] != op[1]]
+            edits_before_creation += 1
+        elif nm == 'insattr':
+            mc.insert_attribute(op[1], op[2], op[3])
+            cur.insert(op[1], (op[2], op[3]))
+            edits_before_creation += 1
+        elif nm == 'appattr':
+            mc.append_attribute(op[1], op[2])
+            cur.append((op[1], op[2]))
+            edits_before_creation += 1
+        else:
+            args, kws = op[1], dict((k, v) for k, v in op[2])
+            inst = m.new('L', *args, **kws) if op[3] == 'm' else (mc.new(*args, **kws) if op[3] == 'mc' else mc(*args, **kws))
+            if [tuple(a) for a in mc.attributes] != cur:
+                fails.append({'sig': 'attribute-list', 'what': 'the class holds the attributes %r, the edits give %r; history %r'
+                              % (list(mc.attributes), cur, case['ops'][:n + 1])})
+                break
+            want = {}
+            for a, t in cur:
+                want[a] = KNOWN[t.upper()]
+            for (a, t), v in zip(cur, args):
+                want[a] = v
+            for k, v in op[2]:
+                for a, t in cur:
+                    if a.upper() == k.upper():
+                        want[a] = v
+            got = dict(inst.__dict__)
+            if edits_before_creation:
+                checked_after_edit += 1
+            for a, t in cur:
+                have = got.get(a, Sym('ABSENT'))
+                if have != want[a] or type(have) is not type(want[a]):
+                    if len(fails) < 3:
+                        fails.append({'sig': 'argument-order', 'what': 'new(%r, %r) after the attribute list was edited to %r: attribute %r '
+                                      'holds %r, the arguments in the CURRENT attribute order give %r; class first defined with %r; '
+                                      'history %r' % (args, op[2], [a_ for a_, _ in cur], a, have, want[a], case['attrs'],
+                                                      case['ops'][:n + 1])})
+            stray = [k for k in got if k not in [a for a, _ in cur]]
+            if stray and len(fails) < 3:
+                fails.append({'sig': 'argument-order', 'what': 'new(%r, %r): the instance holds values under %r, which are not attributes of '
+                              'the class now (%r); history %r' % (args, op[2], stray, [a for a, _ in cur], case['ops'][:n + 1])})
+    return {'obs': [], 'd_fail': fails, 'nontrivial': checked_after_edit >= 1, 'key': 'layout/%r/%r' % (case['attrs'], case['ops']),
+            'stats': stats, 'model_line': None}
+
+
 def _run_twin(case):
     x = _x
     import logging
@@ -743,6 +872,8 @@ def run_impl(case):
         return _run_twin(case)
     if case.get('fam') == 'dry':
         return _run_dry(case)
+    if case.get('fam') == 'layout':
+        return _run_layout(case)
     x = _x
     uuid_log = []
     gen = _make_generator(case, uuid_log)
